@@ -871,7 +871,7 @@ def main():
     chk.trusted = ["hand-written model coq/theories/Filtered.v (+ Csv.v) of filtered_file_adapter.py and the four Enforcer "
                    "methods (tied by the differential run of this check)",
                    "role links are observed at RoleManager/DomainManager.add_link/clear (recording subclasses of the real managers)"]
-    chk.build()
+    chk.build(translators=["loadline", "filterline"])
     if chk.replay_file:
         return replay(chk)
     if chk.tier == "thorough":
